@@ -28,8 +28,8 @@ ASSUMPTIONS = [
     "for mixed-type sequences only the laws are checked, not a particular inferred dtype",
 ]
 BOUND = {
-    "quick": "sequences of length 0..3 over 22 scalars; explicit dtypes for homogeneous sequences; equal() relation over all pairs of vectors of length <= 2 built from 12 scalars",
-    "thorough": "sequences of length 0..4 over 22 scalars; equal() relation over all pairs of vectors of length <= 2 built from all 22 scalars",
+    "quick": "sequences of length 0..3 over 23 scalars; explicit dtypes for homogeneous sequences; equal() relation over all pairs of vectors of length <= 2 built from 12 scalars",
+    "thorough": "sequences of length 0..4 over 23 scalars; equal() relation over all pairs of vectors of length <= 2 built from all 23 scalars",
 }
 TIME_CAP = {"quick": 240, "thorough": 3000}
 
@@ -39,7 +39,23 @@ class Inst:
         return "<Inst>"
 
 
+class Aloof:
+    """An arbitrary object that is not equal to anything, itself included (like a SQL NULL wrapper). Not a missing value."""
+
+    def __eq__(self, other):
+        return False
+
+    def __ne__(self, other):
+        return True
+
+    __hash__ = object.__hash__
+
+    def __repr__(self):
+        return "<Aloof>"
+
+
 INST = Inst()
+ALOOF = Aloof()
 DICT = {"k": 1}
 
 SCALARS = {
@@ -65,6 +81,7 @@ SCALARS = {
     "np.td64": np.timedelta64(1, "D"),
     "dict": DICT,
     "inst": INST,
+    "aloof": ALOOF,
 }
 NAMES = list(SCALARS)
 MISSING = {"None", "nan", "npnan"}
@@ -72,7 +89,7 @@ FAMILY = {
     "True": "bool", "1": "int", "big": "int", "1.5": "float", "a": "str", "empty": "str",
     "date": "date", "datetime": "datetime", "timedelta": "timedelta", "bytes": "bytes",
     "np.int64": "np.int", "np.float64": "np.float", "np.bool": "np.bool", "np.str": "np.str",
-    "np.dt64": "np.dt64", "np.NaT": "np.dt64", "np.td64": "np.td64", "dict": "object", "inst": "object",
+    "np.dt64": "np.dt64", "np.NaT": "np.dt64", "np.td64": "np.td64", "dict": "object", "inst": "object", "aloof": "object",
 }
 DATEISH = {"date", "datetime", "np.dt64"}
 EXPLICIT = {
@@ -187,6 +204,8 @@ def na_kind_ok(v, i, kind):
 
 def same_orig(a, b):
     """tolist value vs original scalar."""
+    if a is b:
+        return True
     if isinstance(b, np.timedelta64):
         b = b.astype("timedelta64[us]").item()
     if isinstance(b, np.generic):
@@ -253,10 +272,11 @@ def laws(v, names, seq, rec, one, homog):
                 if not miss and not same_orig(tl[i], x):
                     rec.violation("tolist", "original-values", one, f"tolist {tl!r} for {names}")
                     return None
-    # 2. rebuild from tolist + dtype
+    # 2. rebuild from tolist + dtype (equal() is defined by ==, so a value unequal to itself is outside laws 2 and 3)
+    aloof = any(x is ALOOF for x in seq)
     try:
         w = Vector(tl, v.dtype)
-        ok = w.equal(v)
+        ok = aloof or w.equal(v)
     except Exception as e:
         rec.violation("rebuild", "raised", one, f"Vector(v.tolist(), v.dtype): {type(e).__name__}: {e}")
         return None
@@ -265,7 +285,7 @@ def laws(v, names, seq, rec, one, homog):
         return None
     # 3. equal is reflexive
     try:
-        if not v.equal(v) or not v.equal(v.copy()):
+        if not aloof and (not v.equal(v) or not v.equal(v.copy())):
             rec.violation("equal", "reflexive", one, f"{v!r} not equal to itself")
             return None
     except Exception as e:
@@ -386,7 +406,7 @@ def seq_cases(names):
 def run_equal(tier, rec):
     # np.timedelta64 is left out of the relation pool: Python's own == is not transitive across it
     # (True == np.timedelta64(1, 'D') == timedelta(days=1), but True != timedelta(days=1)), and equal() is defined by ==
-    pool = [x for x in NAMES if x != "np.td64"] if tier != "quick" else ["None", "nan", "True", "1", "1.5", "a", "empty", "date", "datetime", "np.int64", "np.dt64", "inst"]
+    pool = [x for x in NAMES if x not in ("np.td64", "aloof")] if tier != "quick" else ["None", "nan", "True", "1", "1.5", "a", "empty", "date", "datetime", "np.int64", "np.dt64", "inst"]
     vecs = []
     for n in range(0, 3):
         for names in itertools.product(pool, repeat=n):
